@@ -101,8 +101,18 @@ def conn(c):
     return c if isinstance(c, int) and c >= 0 else UNKNOWN_CONN
 
 
-def log_to_events(log):
-    """-> (events: list of Coq terms of type ev, table: list of Coq response terms (the oracle))."""
+def log_to_events(log, conc=False):
+    """-> (events: list of Coq terms of type ev, table: list of Coq response terms (the oracle)).
+
+    conc=False: at most one request per connection is in flight at any time (the request an authcall / authret / masq /
+    resp entry belongs to is the connection's current one; HttpReq is placed where the client sent the request).
+
+    conc=True: requests of one connection may be in flight concurrently.  The `req` entry is the CLIENT sending; the
+    model's HttpReq action of an auth request is the handler getting authMutex, so it is placed at the first thing the
+    boundary shows of that: the Authenticate call carrying its credentials, or (answered without a call) its response.
+    A request that is not an auth request takes no lock: its HttpReq stays where it was sent.  An auth request that is
+    answered while another one is inside Authenticate therefore makes the action sequence one the model refuses
+    (step (HttpReq c r) = None while in_auth (s c) <> None)."""
     resp_by = {}
     for x in log:
         if x["k"] == "resp":
@@ -110,6 +120,8 @@ def log_to_events(log):
     table = []
     cur = {}
     ev = []
+    info = {}        # conc: (c, rid) -> request record, in sending order
+    inmutex = {}     # conc: c -> the record of the auth request inside Authenticate / whose verdict was the last one
     for x in log:
         k = x["k"]
         c = conn(x.get("c", -1))
@@ -126,18 +138,52 @@ def log_to_events(log):
                 table.append("resp0")
             rt = req_term(x, tag)
             cur[c] = (x, tag, rt, padn)
-            ev.append("EAct (HttpReq %d %s (pad_of %d))" % (c, rt, padn))
+            act = "EAct (HttpReq %d %s (pad_of %d))" % (c, rt, padn)
+            if conc:
+                d = {"x": x, "tag": tag, "rt": rt, "padn": padn, "act": act, "emitted": False, "answered": False, "masq": False, "c": c}
+                info[(c, x.get("rid", 0))] = d
+                if x.get("af"):
+                    continue            # deferred
+                d["emitted"] = True
+            ev.append(act)
         elif k == "authcall":
+            if conc:
+                d = next((d for d in info.values() if d["c"] == c and d["x"].get("af") and not d["emitted"] and not d["answered"]
+                          and d["x"].get("auth", "") == x.get("auth", "")), None)
+                if d is not None:
+                    ev.append(d["act"])
+                    d["emitted"] = True
+                    inmutex[c] = d
             ev.append("EObs (ObsAuthCall %d %s %s)" % (c, cb(x.get("auth", "")), x.get("rx", "0")))
         elif k == "authret":
-            padn = cur[c][3] if c in cur else 0
+            if conc:
+                padn = inmutex[c]["padn"] if c in inmutex else 0
+            else:
+                padn = cur[c][3] if c in cur else 0
             ev.append("EAct (AuthVerdict %d %s %s (pad_of %d))" % (c, "true" if x.get("ok") else "false", cb(x.get("id", "")), padn))
         elif k == "masq":
-            q, tag = (cur[c][0], cur[c][1]) if c in cur else ({}, 0)
+            if conc:
+                same = lambda d: (d["c"] == c and not d["answered"] and not d["masq"] and d["emitted"] and d["x"].get("m", "") == x.get("m", "")
+                                  and d["x"].get("h", "") == x.get("h", "") and d["x"].get("p", "") == x.get("p", ""))
+                d = inmutex[c] if c in inmutex and same(inmutex[c]) else next((d for d in info.values() if same(d)), None)
+                if d is not None:
+                    d["masq"] = True
+                q, tag = (d["x"], d["tag"]) if d is not None else ({}, 0)
+            else:
+                q, tag = (cur[c][0], cur[c][1]) if c in cur else ({}, 0)
             e2 = {"m": x.get("m", ""), "h": x.get("h", ""), "p": x.get("p", ""), "auth": q.get("auth", ""), "ccrx": q.get("ccrx", "")}
             ev.append("EObs (ObsMasq %d %s)" % (c, req_term(e2, tag)))
         elif k == "resp":
-            rt = cur[c][2] if c in cur else req_term({}, 0)
+            if conc:
+                d = info.get((c, x.get("rid", 0)))
+                if d is not None and not d["emitted"]:
+                    ev.append(d["act"])
+                    d["emitted"] = True
+                if d is not None:
+                    d["answered"] = True
+                rt = d["rt"] if d is not None else req_term({}, 0)
+            else:
+                rt = cur[c][2] if c in cur else req_term({}, 0)
             ev.append("EObs (ObsResp %d %s %s)" % (c, rt, resp_term(x.get("status", 0), x.get("hdr"), x.get("body"))))
         elif k == "online":
             ev.append("EObs (ObsOnline %d %s %s)" % (c, cb(x.get("id", "")), "true" if x.get("ok") else "false"))
@@ -164,7 +210,8 @@ def log_to_events(log):
             ev.append("EObs (ObsRelay %d %d)" % (c, x.get("n", 0)))
         elif k == "close":
             ev.append("EAct (ConnClosed %d)" % c)
-        # streamres, dgramreply, evtcp, evudp, checkudp, dgramerr: client-side / C06-C08 detail, judged by the Go verdict
+        # streamres, dgramreply, evtcp, evudp, checkudp, dgramerr, pol, window, release: client-side / C06-C08 / harness detail,
+        # judged by the Go verdict
     return ev, table
 
 
@@ -183,8 +230,16 @@ def log_features(log):
     """coarse features of one boundary log, for the class histogram / non-triviality."""
     acc = set()
     f = set()
+    pend, verdicts = {}, {}
     for x in log:
         k, c = x["k"], x.get("c")
+        if k == "authcall":
+            pend[c] = x.get("auth", "")
+        if k == "authret" and c in pend:
+            v = verdicts.setdefault(pend.pop(c), {})
+            v.setdefault(bool(x.get("ok")), set()).add(c)
+            if v.get(True) and v.get(False) and v[False] - v[True]:
+                f.add("same-credential-accepted-on-one-connection-rejected-on-another")
         if k == "authret":
             if x.get("ok"):
                 acc.add(c)
